@@ -158,5 +158,4 @@ CHECKS = {
 
 _PENDING = "check not built yet in this session (planned, see DESIGN.md section 4); not claimed until it has run clean and caught a mutant"
 NOT_APPLICABLE = {k: _PENDING for k in
-                  ["C03", "C04", "C05", "C08", "C09", "C10", "C14",
-                   "C17"]}
+                  ["C03", "C04", "C08", "C09", "C10", "C14", "C17"] if k not in CHECKS}
